@@ -9,7 +9,7 @@
    RP.TmgrSched.Oracle that the harness applies to the implementation's trace. *)
 From Coq Require Import ZArith List Bool.
 From RP Require Import Gen.StatesTables States.Model States.Inst
-  TmgrSched.Model TmgrSched.Oracle TmgrSched.Proofs TmgrSched.Proofs2.
+  TmgrSched.Model TmgrSched.Oracle TmgrSched.Proofs TmgrSched.Proofs2 TmgrSched.Balance.
 Import ListNotations.
 Open Scope Z_scope.
 
@@ -64,6 +64,19 @@ Theorem C12_waits_without_pilot :
     existsb sched_asg (asgs_of ev) = false /\ bad_adv ev = false /\ s_pids s' = [].
 Proof. exact waits_without_pilot. Qed.
 Print Assumptions C12_waits_without_pilot.
+
+(* round robin: one _schedule_tasks call over k > 0 pilots, from whatever
+   start index, gives its tasks to the list positions rr_pos (cyclic walk),
+   and the numbers of tasks given to any two positions differ by at most one *)
+Theorem C12_rr_balance :
+  forall (pl : list (Z * pil)) (pids : list Z) (idx : Z) (ts : list task) idx' ok ev,
+    pids <> [] -> 0 <= idx -> rr_loop pl pids idx ts = (idx', ok, ev) ->
+    let k := Z.of_nat (length pids) in
+    let pos := rr_pos (length ts) k idx in
+    map a_pid (asgs_of ev) = map (fun i => nth (Z.to_nat i) pids 0) pos /\
+    forall p q, 0 <= p < k -> 0 <= q < k -> Z.abs (countz p pos - countz q pos) <= 1.
+Proof. exact rr_balance. Qed.
+Print Assumptions C12_rr_balance.
 
 (* backfilling usage accounting, full statement REFUTED on the code as it is:
    a history exists after which every task placed on a pilot has been reported
